@@ -104,10 +104,10 @@ pub fn req_name(req: &V) -> Vec<u8> {
 }
 const RANDOM_CMDS: &[&[u8]] = &[b"RANDOMKEY", b"SPOP", b"SRANDMEMBER"];
 
-pub struct Runner { pub srv: Srv, pub conns: HashMap<i128, Client>, pub t0: Instant, pub logical: i128, pub drift_bad: bool }
+pub struct Runner { pub srv: Srv, pub conns: HashMap<i128, Client>, pub t0: Instant, pub logical: i128, pub drift_bad: bool, pub queues: HashMap<i128, Vec<Vec<u8>>> }
 
 impl Runner {
-    pub fn new(o: &SrvOpts) -> Runner { Runner { srv: Srv::start(o), conns: HashMap::new(), t0: Instant::now(), logical: 0, drift_bad: false } }
+    pub fn new(o: &SrvOpts) -> Runner { Runner { srv: Srv::start(o), conns: HashMap::new(), t0: Instant::now(), logical: 0, drift_bad: false, queues: HashMap::new() } }
     /// one op; returns (possibly augmented op, output)
     pub fn op(&mut self, op: &[Tok]) -> (Vec<Tok>, Vec<Tok>) {
         let name = tok_bytes(&op[0]).to_vec();
@@ -137,6 +137,15 @@ impl Runner {
                 match cl.read(3000) {
                     Rd::Val(v) => {
                         if RANDOM_CMDS.contains(&&nm[..]) { v.enc(&mut newop); }
+                        // replies inside an EXEC array are canonicalised by the queued command's name
+                        let v = if nm == b"EXEC" {
+                            let q = self.queues.remove(&c).unwrap_or_default();
+                            match v { V::Array(l) if l.len() == q.len() => V::Array(l.into_iter().zip(q.iter()).map(|(x, n)| canon_reply(n, x)).collect()), x => x }
+                        } else {
+                            if matches!(&v, V::Simple(s) if s == b"QUEUED") { self.queues.entry(c).or_default().push(nm.clone()); }
+                            if nm == b"MULTI" || nm == b"DISCARD" { self.queues.remove(&c); }
+                            v
+                        };
                         let mut out = vec![]; canon_reply(&nm, v).enc(&mut out); (newop, out)
                     }
                     Rd::Timeout => (newop, vec![b("TIMEOUT")]),
@@ -152,10 +161,21 @@ impl Runner {
 
 /// run a whole case on a fresh server
 pub fn run_case(c: &Case, o: &SrvOpts) -> Case {
-    let mut r = Runner::new(o);
+    // an initial [SERVER password] op configures the server of this case
+    let mut opts = SrvOpts { password: o.password.clone(), aof: o.aof, dir: o.dir.clone(), keep_dir: o.keep_dir };
+    let mut skip = 0;
     let mut out = Case { id: c.id.clone(), ops: vec![], outs: vec![] };
-    for op in &c.ops { let (o2, res) = r.op(op); out.ops.push(o2); out.outs.push(res); }
-    let drift = r.drift_bad;
+    if let Some(first) = c.ops.first() {
+        if matches!(first.first(), Some(Tok::B(n)) if n == b"SERVER") {
+            let pw = tok_bytes(&first[1]).to_vec();
+            if !pw.is_empty() { opts.password = Some(String::from_utf8_lossy(&pw).to_string()); }
+            out.ops.push(first.clone()); out.outs.push(vec![]);
+            skip = 1;
+        }
+    }
+    let mut r = Runner::new(&opts);
+    for op in &c.ops[skip..] { let (o2, res) = r.op(op); out.ops.push(o2); out.outs.push(res); }
+    let drift = r.drift_bad && c.ops.iter().any(|o| matches!(o.first(), Some(Tok::B(n)) if n == b"SLEEP"));
     let alive = r.finish();
     if !alive { out.ops.push(vec![b("ALIVE")]); out.outs.push(vec![i(0)]); }
     if drift { out.id = format!("{}-DISCARD", out.id); }
@@ -170,3 +190,27 @@ pub fn cmd_op(conn: i64, args: &[&[u8]]) -> Vec<Tok> {
 pub fn cmd_frame_op(conn: i64, req: &V) -> Vec<Tok> { let mut o = vec![b("CMD"), i(conn), i(0)]; req.enc(&mut o); o }
 pub fn conn_op(conn: i64) -> Vec<Tok> { vec![b("CONN"), i(conn)] }
 pub fn sleep_op(ms: i64) -> Vec<Tok> { vec![b("SLEEP"), i(ms)] }
+pub fn close_op(conn: i64) -> Vec<Tok> { vec![b("CLOSE"), i(conn)] }
+pub fn server_op(password: &[u8]) -> Vec<Tok> { vec![b("SERVER"), bv(password)] }
+
+/// every command name the server dispatches, read from /repo's current source
+pub fn dispatch_names() -> Vec<String> {
+    let repo = std::env::var("VERIF_REPO").unwrap_or("/repo".to_string());
+    let src = std::fs::read_to_string(format!("{}/src/network/server.rs", repo)).unwrap_or_default();
+    let mut names: Vec<String> = vec![];
+    let bytes = src.as_bytes();
+    let mut p = 0;
+    while let Some(q) = src[p..].find('"') {
+        let st = p + q + 1;
+        if let Some(e) = src[st..].find('"') {
+            let w = &src[st..st + e];
+            let after = src[st + e + 1..].trim_start();
+            if w.len() >= 3 && w.chars().all(|c| c.is_ascii_uppercase()) && (after.starts_with("=>") || after.starts_with('|'))
+                && !names.contains(&w.to_string()) { names.push(w.to_string()); }
+            p = st + e + 1;
+        } else { break; }
+    }
+    let _ = bytes;
+    names.retain(|n| n != "VERIF");
+    names
+}
